@@ -62,6 +62,10 @@ type c20Ante struct {
 	urlOf   map[string]string // alias -> type URL
 	aliasOf map[string]string // type URL -> alias
 	goName  map[string]string // alias -> Go type name
+	// ethereum route (c20_routes_test.go): X is built as a valid signed message with consecutive nonces
+	ethRoute  bool
+	ethFunded bool
+	ethNonce  uint64
 }
 
 func mustAny(m any) *codectypes.Any {
@@ -104,6 +108,9 @@ func newC20Ante(f *Fix) *c20Ante {
 	add(&c20Kind{alias: "U", disabled: 1, proto: func(*c20Ante) sdk.Msg {
 		return &ibcclienttypes.MsgUpdateClient{ClientId: "07-tendermint-0", ClientMessage: mustAny(&ibctm.Header{}), Signer: a0}
 	}}, &ibcclienttypes.MsgUpdateClient{})
+	add(&c20Kind{alias: "M", disabled: 1, proto: func(*c20Ante) sdk.Msg { // deprecated, still routable
+		return &ibcclienttypes.MsgSubmitMisbehaviour{ClientId: "07-tendermint-0", Misbehaviour: mustAny(&ibctm.Misbehaviour{}), Signer: a0} //nolint:staticcheck
+	}}, &ibcclienttypes.MsgSubmitMisbehaviour{}) //nolint:staticcheck
 	add(&c20Kind{alias: "V1", disabled: 0, proto: func(*c20Ante) sdk.Msg {
 		return &vestingtypes.MsgCreateVestingAccount{FromAddress: a0, ToAddress: a1, Amount: coin, EndTime: 4102444800}
 	}}, &vestingtypes.MsgCreateVestingAccount{})
@@ -264,6 +271,11 @@ func (h *c20Ante) build(n *c20Node) (sdk.Msg, error) {
 	}
 	if len(inner) > 0 {
 		return nil, fmt.Errorf("leaf %s cannot carry messages", n.ty)
+	}
+	if n.ty == "X" && h.ethRoute {
+		m, err := h.ethMsg(h.ethNonce)
+		h.ethNonce++
+		return m, err
 	}
 	return k.proto(h), nil
 }
